@@ -18,7 +18,8 @@
 (*                                                                         *)
 (* Clauses (per case and per simplifier variant V \in {"E", "P"}):         *)
 (*   raises      simplify() raised (unspecified when the expression has a  *)
-(*               division whose divisor is 0 under every valuation)        *)
+(*               division whose divisor is 0 under every valuation of the  *)
+(*               variant: static fluents pinned for V = "P")               *)
 (*   freevars    FreeVars(e') \subseteq FreeVars(e)                        *)
 (*   meaning     for ALL valuations of the leaves over the finite value    *)
 (*               grid (Booleans; objects: all; numeric leaves: -2..3 and   *)
@@ -88,11 +89,11 @@ RECURSIVE Subterms(_)
 Subterms(e) == {e} \cup UNION {Subterms(e.args[i]) : i \in DOMAIN e.args}
 
 \* some division of e has a divisor that is 0 (or undefined) under every valuation
-HasZeroDiv(e) ==
+HasZeroDiv(e, V) ==
    \E d \in {t \in Subterms(e) : t.op = "div"} :
       LET rel == FluentNames(d.args[2])
           R   == CtxOf(rel)
-      IN \A s \in States(rel, "E") : \A en \in EnvsFor(d.args[2], d.args[2]) :
+      IN \A s \in States(rel, V) : \A en \in EnvsFor(d.args[2], d.args[2]) :
             LET v == Eval(R, d.args[2], s, en) IN IsU(v) \/ VEq(v, ZERO)
 
 \* the valuations on which e and r have different (defined) values
@@ -126,11 +127,15 @@ ElimAt(t) ==
          LET c == t.args[1].args[i] IN
          /\ c.op = "eq"
          /\ \E j \in {1, 2} : c.args[j].op = "var" /\ c.args[j].name \in BoundNames(t) /\ c.args[3 - j] # c.args[j]
-\* a subtraction of a negative constant term (no fluent, parameter or variable) from a non-constant term
-Closed(t) == FluentNames(t) = {} /\ ParamNames(t) = {} /\ FreeVars(t) = {}
-NegMinusAt(t) ==
-   /\ t.op = "minus" /\ Closed(t.args[2]) /\ ~Closed(t.args[1])
-   /\ LET v == Eval(CtxOf({}), t.args[2], <<>>, [q |-> OV(First)]) IN v.k = "n" /\ RLt(v, ZERO)
+\* a subtraction of a negative constant term (no parameter or variable; no fluent except, for V = "P", static
+\* ones, which that simplifier replaces by their initial values) from a non-constant term
+Closed(t, V) == /\ FluentNames(t) \subseteq (IF V = "P" THEN Static ELSE {})
+                /\ ParamNames(t) = {} /\ FreeVars(t) = {}
+NegMinusAt(t, V) ==
+   /\ t.op = "minus" /\ Closed(t.args[2], V) /\ ~Closed(t.args[1], V)
+   /\ LET rel == FluentNames(t.args[2])
+          v   == Eval(CtxOf(rel), t.args[2], CHOOSE st \in States(rel, "P") : TRUE, [q |-> OV(First)])
+      IN v.k = "n" /\ RLt(v, ZERO)
 \* ... with a term one of whose variables is re-bound, in the rest of the body, around an occurrence of
 \* the bound variable (substituting the term there captures it)
 CaptureAt(t) ==
@@ -148,11 +153,11 @@ CaptureAt(t) ==
 \* ... where the bound variable has a proper subtype (the other term may have the supertype)
 Parent(tn) == LET is == {i \in DOMAIN Prob.types : Prob.types[i].name = tn} IN Prob.types[CHOOSE i \in is : TRUE].parent
 SubtypedAt(t) == ElimAt(t) /\ \E i \in DOMAIN t.vars : Parent(t.vars[i].type.name) # ""
-Feature(e) == IF \E t \in Subterms(e) : SubtypedAt(t) THEN "exists-elim-subtyped"
+Feature(e, V) == IF \E t \in Subterms(e) : SubtypedAt(t) THEN "exists-elim-subtyped"
               ELSE IF \E t \in Subterms(e) : SelfEqAt(t) THEN "exists-self-eq"
               ELSE IF \E t \in Subterms(e) : CaptureAt(t) THEN "exists-elim-capture"
               ELSE IF \E t \in Subterms(e) : ElimAt(t) THEN "exists-elim"
-              ELSE IF \E t \in Subterms(e) : NegMinusAt(t) THEN "minus-neg-const"
+              ELSE IF \E t \in Subterms(e) : NegMinusAt(t, V) THEN "minus-neg-const"
               ELSE Shape(e)
 
 ValStr(w) == ToString(w[1]) \o " q=" \o w[2].q.o \o " x=" \o w[2].x.o \o " y=" \o w[2].y.o \o " z=" \o w[2].z.o
@@ -162,20 +167,20 @@ JudgeV(c, V) ==
    LET o  == IF V = "E" THEN c.E ELSE c.P
        e  == Tab[c.e0].e
    IN IF c.built.k # "ok"
-      THEN (IF HasZeroDiv(e) THEN {<<"U", "build-divzero", "", "">>}
+      THEN (IF HasZeroDiv(e, V) THEN {<<"U", "build-divzero", "", "">>}
             ELSE {<<"M", "build-" \o c.built.exc, "", "">>})
       ELSE IF o.k = "skip" THEN {<<"S", "not-replayed", "", "">>}
       ELSE IF o.k # "ok"
-      THEN (IF HasZeroDiv(e) THEN {<<"U", "divzero", "", "">>}
-            ELSE {<<"F", "raises-" \o o.exc, Feature(e), "">>})
+      THEN (IF HasZeroDiv(e, V) THEN {<<"U", "divzero", "", "">>}
+            ELSE {<<"F", "raises-" \o o.exc, Feature(e, V), "">>})
       ELSE LET r == Tab[o.r].e
                d == IF r = e THEN {} ELSE Diff(e, r, V)
-           IN (IF FreeVars(r) \subseteq FreeVars(e) THEN {} ELSE {<<"F", "freevars", Feature(e), "">>})
-              \cup (IF d = {} THEN {} ELSE {<<"F", "meaning", Feature(e), ValStr(CHOOSE w \in d : TRUE)>>})
+           IN (IF FreeVars(r) \subseteq FreeVars(e) THEN {} ELSE {<<"F", "freevars", Feature(e, V), "">>})
+              \cup (IF d = {} THEN {} ELSE {<<"F", "meaning", Feature(e, V), ValStr(CHOOSE w \in d : TRUE)>>})
               \cup (IF o.rr.k # "ok"
-                    THEN (IF HasZeroDiv(r) THEN {<<"U", "divzero-2", "", "">>}
-                          ELSE {<<"F", "idempotent-raises-" \o o.rr.exc, Feature(e), "">>})
-                    ELSE IF Tab[o.rr.r].e # r THEN {<<"F", "idempotent", Feature(e), "">>} ELSE {})
+                    THEN (IF HasZeroDiv(r, V) THEN {<<"U", "divzero-2", "", "">>}
+                          ELSE {<<"F", "idempotent-raises-" \o o.rr.exc, Feature(e, V), "">>})
+                    ELSE IF Tab[o.rr.r].e # r THEN {<<"F", "idempotent", Feature(e, V), "">>} ELSE {})
 
 \* ---------------------------------------------------------------------------
 \* big family
@@ -217,6 +222,18 @@ JoinKinds(as, i) == IF i > Len(as) THEN ""
 BShape(e) == e.op \o "(" \o JoinKinds(e.args, 1) \o ")"
 RECURSIVE BSubterms(_)
 BSubterms(e) == {e} \cup UNION {BSubterms(e.args[i]) : i \in DOMAIN e.args}
+\* integer-syntactic terms: integer constants combined by + - * (UP folds them to Int constants)
+RECURSIVE IntTerm(_)
+IntTerm(t) == \/ t.op = "const" /\ QIsInt(t.q)
+              \/ t.op \in {"plus", "minus", "times"} /\ \A i \in DOMAIN t.args : IntTerm(t.args[i])
+P2x53 == NPow(<<2>>, 53)
+\* a division of two integer terms whose quotient is beyond 2^53 in magnitude: |a| > 2^53 * |b|, b # 0
+BigIntDivAt(t) ==
+   /\ t.op = "div" /\ IntTerm(t.args[1]) /\ IntTerm(t.args[2])
+   /\ LET a == BEval(t.args[1], [n |-> QInt(0), r |-> QInt(0)]).q.n
+          b == BEval(t.args[2], [n |-> QInt(0), r |-> QInt(0)]).q.n
+      IN b.s # 0 /\ NCmp(a.m, NMul(P2x53, b.m)) > 0
+BFeature(e) == IF \E t \in BSubterms(e) : BigIntDivAt(t) THEN "int-div-beyond-2^53" ELSE BShape(e)
 BHasZeroDiv(e) == \E d \in {t \in BSubterms(e) : t.op = "div"} :
                      \A val \in BigEnvs(BFluents(d.args[2])) :
                         LET v == BEval(d.args[2], val) IN v.k # "q" \/ QIsZero(v.q)
@@ -233,7 +250,7 @@ BJudgeV(c, V) ==
       ELSE LET r == BTab[o.r].e
                d == {val \in BigEnvs(BFluents(e) \cup BFluents(r)) :
                         LET a == BEval(e, val) b == BEval(r, val) IN a.k # "u" /\ b.k # "u" /\ ~BSame(a, b)}
-           IN (IF d = {} THEN {} ELSE {<<"F", "big-meaning", BShape(e) \o "|res=" \o BKind(r), "">>})
+           IN (IF d = {} THEN {} ELSE {<<"F", "big-meaning", BFeature(e) \o "|res=" \o BKind(r), "">>})
               \cup (IF o.rr.k # "ok" THEN {<<"F", "big-idempotent-raises-" \o o.rr.exc, BShape(e), "">>}
                     ELSE IF BTab[o.rr.r].e # r THEN {<<"F", "big-idempotent", BShape(e), "">>} ELSE {})
 
